@@ -70,6 +70,49 @@ def in_claim(path, no_suffix):
     return s in ("", ".eqx") or no_suffix
 
 
+def _default_leaf_handling(extra, default_spec):
+    a, k = extra
+    if a:
+        return False
+    for kk, v in k.items():
+        if kk == "filter_spec" and v is default_spec:
+            continue
+        if kk == "is_leaf" and v is None:
+            continue
+        return False
+    return True
+
+
+def native_mismatch_battery():
+    """real save -> real load into a DIFFERENT architecture must raise; includes shapes that numpy would broadcast (unit / scalar dimensions on the saved side)"""
+    from lerax.policy import MLPQPolicy, MLPActorCriticPolicy
+    from lerax.env.classic_control import CartPole, Pendulum
+    from lerax.space import Box
+    from lvc.generic import GenericEnv
+    cases = [("Tiny(1)->Tiny(4)", Tiny, (1,), {}, (4,), {}), ("Tiny(3)->Tiny(2)", Tiny, (3,), {}, (2,), {}),
+             ("MLPQPolicy width 1 -> 8", MLPQPolicy, (CartPole(),), dict(width_size=1, depth=1), (CartPole(),), dict(width_size=8, depth=1)),
+             ("MLPQPolicy width 8 -> 4", MLPQPolicy, (CartPole(),), dict(width_size=8, depth=1), (CartPole(),), dict(width_size=4, depth=1)),
+             ("MLPActorCriticPolicy scalar Box action -> 3-dim Box action", MLPActorCriticPolicy, (Pendulum(),), dict(feature_size=4, feature_width=4, value_width=4, action_width=4),
+              (GenericEnv(Box(-jnp.ones((3,)), jnp.ones((3,))), observation_space=Pendulum().observation_space),), dict(feature_size=4, feature_width=4, value_width=4, action_width=4))]
+    bad = []
+    for name, cls, a1, k1, a2, k2 in cases:
+        tmp = tempfile.mkdtemp(prefix="lvc_c18_")
+        try:
+            full = os.path.join(tmp, "ckpt")
+            obj = cls(*a1, key=jax.random.key(0), **k1)
+            Serializable.serialize.__wrapped__(obj, full, False)
+            try:
+                back = cls.deserialize(full, *a2, key=jax.random.key(1), **k2)
+                bad.append(dict(case=name, what="loaded without an error", loaded_shapes=[list(np.shape(x)) for x in jax.tree.leaves(back) if hasattr(x, "shape")][:6]))
+            except Exception:
+                pass
+        except Exception as e:
+            bad.append(dict(case=name, what=f"setup raised {type(e).__name__}: {str(e)[:120]}"))
+        finally:
+            shutil.rmtree(tmp, ignore_errors=True)
+    return bad, len(cases)
+
+
 def unit_calls(S):
     S.under_contract(F_SER, F_DES)
     ser = getattr(Serializable.serialize, "__wrapped__", None)
@@ -77,6 +120,7 @@ def unit_calls(S):
     if ser is None:
         return
     bad_ser, bad_path, n = [], [], 0
+    custom_ser, custom_des = [], []
     for path, no_suffix in spellings():
         tmp = tempfile.mkdtemp(prefix="lvc_c18_")
         try:
@@ -85,6 +129,8 @@ def unit_calls(S):
             def fake_serialise(p, tree, *a, **k):
                 p = Path(p)
                 rec.append(dict(path=p, parent_exists=p.parent.exists(), whole=tree))
+                if not _default_leaf_handling((a, dict(k)), eqx.default_serialise_filter_spec):
+                    custom_ser.append(dict(path=path, extra=str((a, k))[:200]))
             obj = Tiny(3)
             full = os.path.join(tmp, path)
             real = U.eqx.tree_serialise_leaves
@@ -102,7 +148,7 @@ def unit_calls(S):
             rec2 = []
 
             def fake_deserialise(p, like, *a, **k):
-                rec2.append(dict(path=Path(p), like=like))
+                rec2.append(dict(path=Path(p), like=like, extra=(a, dict(k))))
                 return like
             real2 = U.eqx.tree_deserialise_leaves
             U.eqx.tree_deserialise_leaves = fake_deserialise
@@ -111,6 +157,8 @@ def unit_calls(S):
             finally:
                 U.eqx.tree_deserialise_leaves = real2
             read = eqx_with_suffix(rec2[0]["path"]) if len(rec2) == 1 else None
+            if len(rec2) == 1 and not _default_leaf_handling(rec2[0]["extra"], eqx.default_deserialise_filter_spec):
+                custom_des.append(dict(path=path, extra=str(rec2[0]["extra"])[:200]))
             if in_claim(path, no_suffix) and (read is None or read != written):
                 bad_path.append(dict(path=path, no_suffix=no_suffix, written=str(written).replace(tmp, ""), read=str(read).replace(tmp, "")))
         finally:
@@ -121,6 +169,20 @@ def unit_calls(S):
     S.fact("path-lemma/file-written-is-file-read", not bad_path, function=F_DES,
            what="for every spelling in the claim (suffix '' or '.eqx', both values of no_suffix; any suffix when written verbatim) the file deserialize reads is the file serialize wrote (lerax rule composed with equinox's)",
            detail=bad_path[:6], replay=lambda m: dict(reproduced=bool(bad_path), route="R1", observed=bad_path[:6]))
+    # frame condition that makes the assumed contract A-EQX applicable: leaves are written / read by equinox's DEFAULT leaf (de)serialisers.  A custom filter_spec / is_leaf is
+    # outside the assumed contract: decided natively (mismatch battery incl. broadcastable shapes through the real functions) - a reproduced silent load is a violation,
+    # otherwise the obligation is undecided (never a violation).
+    for which, custom, fn_ in (("serialize", custom_ser, F_SER), ("deserialize", custom_des, F_DES)):
+        if not custom:
+            S.fact(f"{which}/default-leaf-handling", True, function=fn_, what=f"{which} hands the leaves to equinox's default leaf (de)serialiser (no custom filter_spec / is_leaf): the assumed contract A-EQX applies")
+            continue
+        bad, nn = native_mismatch_battery()
+        if bad:
+            S.fact(f"{which}/default-leaf-handling", False, function=fn_, what=f"{which} uses a custom leaf (de)serialiser and a mismatching checkpoint loads silently", detail=dict(custom=custom[:2], silent_loads=bad[:4]),
+                   replay=lambda m, bad=bad: dict(reproduced=True, route="R1 (real serialize / deserialize through real equinox, mismatching architectures incl. broadcastable shapes)", observed=bad[:4]))
+        else:
+            S.undecided(f"{which}/default-leaf-handling", f"{which} passes a custom filter_spec / is_leaf to equinox ({custom[0]['extra']}): outside the assumed contract A-EQX; {nn} native mismatch cases all failed loudly",
+                        function=fn_, what="custom leaf handling: bit-exactness and loud failure can no longer be inherited from A-EQX")
     # deserialize builds the skeleton from the CALLER's constructor arguments, abstractly
     rec3 = []
 
@@ -183,6 +245,8 @@ def native_roundtrips(seed, thorough):
 def unit_roundtrip(S):
     S.under_contract(F_SER, F_DES)
     bad, n = native_roundtrips(int(S.seed), S.tier == "thorough")
+    bad_m, n_m = native_mismatch_battery()
+    bad, n = bad + bad_m, n + n_m
     S.bounded_check("native/round-trip-and-loud-mismatch", not bad, bound=f"{n} native save/load round trips through real equinox: 4 policy classes x path spellings (incl. not-yet-existing nested directories), plus one mismatching architecture each",
                     function=F_SER + " / " + F_DES, what="loaded parameters are bit-identical; loading into mismatching shapes raises", detail=bad[:6],
                     replay=lambda m: dict(reproduced=bool(bad), route="R1", observed=bad[:6]))
